@@ -86,14 +86,23 @@ func rpcRun(rng *rand.Rand, res *hx.Result, runNo int) ([]Event, *rpcRunStats, e
 		}
 		return fmt.Sprintf("s%d", (p-1)%8+1)
 	}
-	nd, err := newNode(nodeCfg{MaxInflight: maxInflight, MaxSubnet: maxSubnet, MaxIn: 64, MaxOut: 0, SubnetOf: subnetOf})
+	// the peer -> subnet map is realised with real addresses under a configured prefix length: distinct
+	// addresses inside one /24 or /16, one shared address under /32, or (nobody shares) neighbours under /32
+	smap := map[string]string{}
+	for p := 1; p <= npeers; p++ {
+		smap[pname(p)] = subnetOf(p)
+	}
+	plans := plansFor(smap)
+	plan := plans[rng.Intn(len(plans))]
+	res.Count("plan_"+string(plan), 1)
+	nd, err := newNode(nodeCfg{Prefix4: plan.bits(), MaxInflight: maxInflight, MaxSubnet: maxSubnet, MaxIn: 64, MaxOut: 0, SubnetOf: subnetOf})
 	if err != nil {
 		return nil, nil, err
 	}
 	rec := nd.rec
 	clients := make([]*client, npeers+1)
 	for p := 1; p <= npeers; p++ {
-		c := newClient(p, subnetIP(assign[p]), 21000+p, nd.genesis)
+		c := newClient(p, plan.peerIP(assign[p], p), 21000+p, nd.genesis)
 		if err := c.connect(nd.s.Addr()); err != nil {
 			return nil, nil, err
 		}
@@ -301,7 +310,7 @@ func rpcRun(rng *rand.Rand, res *hx.Result, runNo int) ([]Event, *rpcRunStats, e
 			stats.failed++
 		}
 	}
-	stats.desc = map[string]any{"peers": npeers, "maxInflight": maxInflight, "maxSubnet": maxSubnet, "subnets": nsub, "bursts": nbursts, "rpcs": stats.rpcs}
+	stats.desc = map[string]any{"peers": npeers, "maxInflight": maxInflight, "maxSubnet": maxSubnet, "addresses": plan, "subnets": nsub, "bursts": nbursts, "rpcs": stats.rpcs}
 	return evs, stats, nil
 }
 
